@@ -215,7 +215,11 @@ def gen_cases(tier, seed):
                    and any(c["p"].startswith(e["p"] + "/") for c in spec)]
         if subdirs and flag != "--glob" and r.random() < 0.1:
             deny = r.choice(subdirs)
-        yield {"deny": deny, "fs": "ext4", "spec": spec, "pre": pre, "args": args, "sources": sources, "shapes": shapes, "dstate": dstate,
+        # a process that sees a single CPU (affinity mask, container quota); together with -w 0 ("as many workers as CPUs")
+        onecpu = deny is None and r.random() < 0.08
+        if onecpu:
+            args[args.index("-w") + 1] = "0"
+        yield {"onecpu": onecpu, "deny": deny, "fs": "ext4", "spec": spec, "pre": pre, "args": args, "sources": sources, "shapes": shapes, "dstate": dstate,
                "flag": flag, "spell": spell, "driver": driver, "T": flag == "-T",
                "sched": r.choice(["os", "os", "os", "pct"]), "sseed": r.randrange(1 << 30)}
 
@@ -239,6 +243,9 @@ def run_case(case):
             res["counters"]["unlistable-dir-runs"] = 1
             if run.verdict == "exited" and run.rule("deny")["applied"] == 0:
                 res["counters"]["unlistable-dir-not-reached"] = 1
+        elif case.get("onecpu"):
+            run = core.run_plain(["taskset", "-c", "5"] + core.xcp_argv(args), root)
+            res["counters"]["one-cpu-runs"] = 1
         elif case["sched"] == "os":
             run = core.run_plain(core.xcp_argv(args), root)
         else:
@@ -270,7 +277,7 @@ def run_case(case):
         for frag, msg in model.check_untouched(pre, post, mapped, exempt=src_paths):
             where = "inside-dest" if msg.split("'")[1].startswith("dst") or msg.split('"')[0].startswith("dst") else "outside-dest"
             res["viol"].append({"sig": "%s:untouched:%s" % (case["driver"], frag), "what": "exit 0 but %s [%s] args=%s" % (msg, tag, " ".join(case["args"]))})
-        res["evals"].append({"key": [case["driver"], case["dstate"], tuple(sorted(set(case["shapes"]))), case["flag"], case["spell"], kinds] + (["unlistable-dir"] if case.get("deny") else []),
+        res["evals"].append({"key": [case["driver"], case["dstate"], tuple(sorted(set(case["shapes"]))), case["flag"], case["spell"], kinds] + (["unlistable-dir"] if case.get("deny") else []) + (["one-cpu"] if case.get("onecpu") else []),
                              "sample": {"args": case["args"], "dest_state": case["dstate"], "mapped_entries": len(mapping),
                                         "kinds": kinds, "some_mapped": [[m["src"], m["dst"]] for m in mapping[:5]]}})
         res["counters"]["exit0"] = 1
